@@ -399,8 +399,8 @@ func runC15(c *Ctx) {
 			if len(written[fv]) == 0 {
 				continue
 			}
-			names2 = append(names2, fv.Name())
-			switch fv.Name() {
+			names2 = append(names2, vname(fv))
+			switch vname(fv) {
 			case "client":
 				c.OK("C15.sync-free", "cache.Target", "field client: set by SetClient before updates (contract, order checked by C01.wire)", "", strings.Join(written[fv], "; "))
 			case "tsmu":
